@@ -25,6 +25,10 @@ SHAPES = [
     ("binary-per-iteration", "f = #['int, 'bin] { | =[0, b] => b | =[x, b] => [[x, 1] __integer_subtract__, [[b, 0x01] __binary_concat__, 1, 2] __binary_slice__] ^ }, [%d, 0x00] f"),
     ("nested-block", "f = #'int { | =0 => 0 | =x => { x { | =1 => 0 ^ | [~, 1] __integer_subtract__ ^ } } }, %d f"),
     ("closure-capture", "k = 1, f = #'int { | =0 => k | [~, k] __integer_subtract__ ^ }, %d f"),
+    ("mono-relay", "relay = #[['int, #^ -> Ok], #['int, #^ -> Ok] -> Ok] { =[x, k], x ^k }, count = #['int, #^ -> Ok] { | =[0, _] => Ok | =[n, self] => [[[n, 1] __integer_subtract__, &self], &self] ^relay }, [%d, &count] count"),
+    ("generic-relay", "relay = #<'t>['t, #'t -> Ok] { =[x, k], x ^k }, count = #['int, #^ -> Ok] { | =[0, _] => Ok | =[n, self] => [[[n, 1] __integer_subtract__, &self], &self] ^relay }, [%d, &count] count"),
+    ("callback-self", "count = #['int, #^ -> 'int] { | =[0, _] => 0 | =[n, self] => [[n, 1] __integer_subtract__, &self] ^self }, [%d, &count] count"),
+    ("generic-accumulator", "go = #<'t>['int, 't, #['int, 't, ^] -> 't] { | =[0, acc, _] => acc | =[n, acc, self] => [[n, 1] __integer_subtract__, acc, &self] ^self }, [%d, 0x01, &go] go"),
     ("named-tail-self", "f = #'int { | =0 => 0 | =x => { [x, 1] __integer_subtract__ ^ } }, %d f"),
     ("binary-dropped-in-branch", "f = #['int, 'bin] { | =[0, b] => b __binary_length__ | =[x, b] => { [b, b] __binary_concat__ =c, [[x, 1] __integer_subtract__, [c, 0, 1] __binary_slice__] ^ } }, [%d, 0xff] f"),
 ]
